@@ -16,7 +16,7 @@ package flowcontrols
 //@ const FCM = &f.flowControls.data
 //@ const fcmWF = f.flowControls != nil && (forall k ref :: {smhas(FCM, k)} smhas(FCM, k) ==> typeis(k, "string") && smget(FCM, k) != nil)
 
-//@ func (*upstreamLimiter).syncLocalFlowControls$2 props C11
+//@ func (*upstreamLimiter).syncLocalFlowControls$2 props C11, C05
 //@   iterator-body goset
 //@   requires [wf] fcmWF
 //@   modifies smap(&f.flowControls.data), fccstopped
@@ -36,11 +36,11 @@ package flowcontrols
 //@ const coupled = forall k ref :: {smhas(FCM, k)} smhas(FCM, k) ==> hasStored && schemaListed(SPECP.Schemas, unbox(k, "string"))
 //@ const NEWS = flowControls.Schemas
 
-//@ func (*upstreamLimiter).syncLocalFlowControls$1 props C11
+//@ func (*upstreamLimiter).syncLocalFlowControls$1 props C11, C05
 //@   modifies f.currentFlowControlSpec
 //@   ensures [stored] typeis(f.currentFlowControlSpec.v, "*proxyv1alpha1.FlowControl") && unbox(f.currentFlowControlSpec.v, "*proxyv1alpha1.FlowControl") != nil && allocated(unbox(f.currentFlowControlSpec.v, "*proxyv1alpha1.FlowControl")) && *unbox(f.currentFlowControlSpec.v, "*proxyv1alpha1.FlowControl") == flowControls
 
-//@ func (*upstreamLimiter).syncLocalFlowControls props C11
+//@ func (*upstreamLimiter).syncLocalFlowControls props C11, C05
 //@   requires [wf] fcmWF
 //@   requires [coupled] coupled
 //@   modifies *
